@@ -124,6 +124,13 @@ def prove_path(entry, path, opts):
     lem = [('L%d' % i, [s]) for i, s in steps]
     rl = smt.run_checks(pre, lem, per_check_ms=opts.get('lemma_ms', 20000), jobs=opts.get('lemma_jobs', 4))
     res['lemmas'] = len(lem); res['lemmas_ok'] = sum(1 for v in rl.values() if v[0] == 'unsat')
+    if opts.get('crosscheck') and lem:
+        # second solver on a sample of the step lemmas (z3 5.1): a timeout is not a disagreement, sat vs unsat is
+        import random as _r
+        smp = _r.Random(len(lem)).sample(lem, min(4, len(lem)))
+        r2 = smt.run_checks(pre, smp, per_check_ms=8000, jobs=1, solver='z3new', tactic='qfnra-nlsat')
+        res['cross_checked'] = len(smp); res['cross_agree'] = sum(1 for k, v in r2.items() if v[0] == rl[k][0])
+        res['cross_disagree'] = [k for k, v in r2.items() if v[0] in ('sat', 'unsat') and rl[k][0] in ('sat', 'unsat') and v[0] != rl[k][0]]
     res['lemma_fail'] = [k for k, v in rl.items() if v[0] != 'unsat'][:20]
     if res['feasible'] is False:
         res['time'] = time.time() - t0
